@@ -13,7 +13,7 @@ REAL = ["train_* routines incl. all update functions", "optimisers", "target upd
 STUB = ["environment (SimEnv)", "sampler", "logger (ProbeLogger, receives live modules)"]
 ASSUMPTIONS = ["event granularity only: contamination between two routines scheduled on the same event is visible only through optimiser step counters",
                "logger keys listed in the routines' docstrings mark the end of each update"]
-TIERS = {"quick": {"runs": 80}, "thorough": {"runs": 1500}}
+TIERS = {"quick": {"runs": 144}, "thorough": {"runs": 2000}}
 REQUIRED = ["update_events_checked", "optimizer_steps_exact", "warmup_iterations_observed"]
 REQUIRED_QUICK = REQUIRED
 CHUNK = 24  # TrainSim plans per fresh worker process
